@@ -442,6 +442,14 @@ func judgeBcRun(rep *Report, r *bcRun, ans []string) {
 	if ans == nil {
 		return
 	}
+	if r.TimedOut {
+		// the settle detection gave up (2 s without a settled process — seen once on a machine running a second full
+		// check beside this one) and no repetition of the schedule confirmed a deadlock: the run stopped in the middle,
+		// its trace and its outcomes are not two views of one finished run, so it is not compared with the model
+		n, _ := rep.Extra["inconclusive_runs"].(int)
+		rep.Extra["inconclusive_runs"] = n + 1
+		return
+	}
 	rep.TracesValidated++
 	ml := r.modelLines()
 	for i, a := range ans {
